@@ -228,7 +228,7 @@ def uses_all(rng, g, m, names):
 
 
 def gen_doc(rng, *, stratum: str):
-    """stratum: exact | float | keywords | mixed | srefkw | compkw | initname | digits | gennames | rewrite | gencollide | sparse | nearequal | idcollide | boolnum | boundary"""
+    """stratum: exact | float | keywords | mixed | srefkw | compkw | initname | digits | gennames | rewrite | gencollide | sparse | nearequal | idcollide | boolnum | boundary | shadow"""
     floaty = stratum == "float"
     GM.SMOOTH = stratum == "digits"
     kw = stratum == "keywords"
@@ -259,6 +259,10 @@ def gen_doc(rng, *, stratum: str):
     pids = rng.sample(pool_p, npar)
     if kw:
         pids[0] = rng.choice(KEYWORD_IDS[4:8])
+    if stratum == "shadow":
+        # an id that is a usable Python name but means something in the generated module: a builtin the printed
+        # bodies call, a module they reach into
+        pids[0] = rng.choice(SHADOW_IDS)
     params, inits, rules = [], [], []
     const_ps = []
     raw = {}
@@ -352,6 +356,10 @@ def gen_doc(rng, *, stratum: str):
         if stratum == "mixed":
             law = ["AST_TIMES", [["ci", comps[0][0]], law]]
         law = uses_all(rng, g, law, [sp["id"] for sp in parts][:1])
+        if stratum == "shadow":
+            p0 = ["ci", pids[0]]
+            law = ["AST_PLUS", [law, ["AST_FUNCTION_ABS", [p0]], ["AST_FUNCTION_MAX", [p0, ["cn", "1"]]],
+                                ["AST_FUNCTION_MIN", [p0, ["cn", "3"]]], ["AST_FUNCTION_CEILING", [p0]]]]
         rxns.append({"id": rid, "reactants": reactants, "products": products, "law": law})
     if stratum == "gennames":
         # a reaction called like a helper function the importer generates: <R>_stoich_<S> for a reaction R acting
@@ -496,11 +504,16 @@ def gen_doc(rng, *, stratum: str):
         params.append([a_, "2"])
         params.append([b_, "5"])
         rxns[0]["law"] = ["AST_PLUS", [rxns[0]["law"], ["AST_TIMES", [["ci", a_], ["AST_PLUS", [["ci", b_], ["cn", "1"]]]]]]]
+    if stratum == "shadow" and rng.random() < 0.4:
+        # the same for the id of a reaction: its function is defined at module level under that name (F-C17-14)
+        rxns[-1]["id"] = rng.choice([i for i in SHADOW_IDS if i != pids[0]])
     finding = {"mixed": "F-C17-4", "srefkw": "F-C17-5", "compkw": "F-C17-6", "idcollide": "F-C17-10",
                "boolnum": "F-C17-11"}.get(stratum)
     if stratum == "boundary" and any(sp["fixed"] and sp["hosu"] and Fraction(dict(comps)[sp["comp"]]) != 1 for sp in species):
         # third party: a boundary species with hasOnlySubstanceUnits in a compartment of size != 1 (F-C17-12)
         finding = "F-C17-12"
+    if stratum == "shadow" and rxns[-1]["id"] in SHADOW_IDS:
+        finding = "F-C17-14"
     if stratum == "boolnum":
         # L3v2 lets a truth value stand for 0 / 1 (suite case 01288: the kinetic law <true/>): as a factor or a summand
         r = rng.choice(rxns)
@@ -1418,7 +1431,9 @@ def lean_docs(ctx, cases):
 
 def check_glue(ctx, cases, Rs):
     """mxlpy's own stage on every imported document: `genModule (importSym <pysbml model>)` against the module text"""
-    todo = [(c, R["glue"]) for c, R in zip(cases, Rs) if "glue" in R]
+    # (stratum `shadow`: the renaming of a parameter that would shadow a name the body calls happens in the text
+    #  generation of `sympy_to_python_fn`, below the level of `genModule`, whose bodies are opaque: numbers only there)
+    todo = [(c, R["glue"]) for c, R in zip(cases, Rs) if "glue" in R and c["kind"] != "shadow"]
     for c, R in zip(cases, Rs):
         if "glue_err" in R:
             ctx.violation({k: c.get(k) for k in ("kind", "doc", "states", "watch", "stem", "raw", "finding")}, R["glue_err"],
@@ -1498,9 +1513,11 @@ def setup(ctx):
 def strata(ctx):
     n = ctx.n(1, 32)
     return [("exact", 110 * n), ("float", 60 * n), ("keywords", 40 * n), ("initname", 15 * n), ("mixed", 15 * n),
-            ("srefkw", 12 * n), ("compkw", 6 * n), ("digits", 12 * n), ("gennames", 24 * n), ("rewrite", 20 * n), ("gencollide", 24 * n), ("sparse", 12 * n), ("nearequal", 24 * n), ("idcollide", 6 * n), ("boolnum", 6 * n), ("boundary", 20 * n)]
+            ("srefkw", 12 * n), ("compkw", 6 * n), ("digits", 12 * n), ("gennames", 24 * n), ("rewrite", 20 * n), ("gencollide", 24 * n), ("sparse", 12 * n), ("nearequal", 24 * n), ("idcollide", 6 * n), ("boolnum", 6 * n), ("boundary", 20 * n), ("shadow", 12 * n)]
 
 
+#: ids the generated module uses itself: builtins its function bodies call, modules they reach into
+SHADOW_IDS = ["abs", "max", "min", "math"]
 PAIR_STEMS = [("Model-1", "model 1"), ("A", "a"), ("m.v2", "mv2"), ("x", "x"), ("my  model", "my-model")]
 
 
